@@ -41,7 +41,17 @@ Round 8, continued (sensor sections):
     (`Py.wire_from_bytes "X" fmt`): the format is folded from `class X(BuiltInDataType[...]): _struct = struct.Struct(fmt)`
     in the SOURCE (a class body holding anything else is rejected); contract = Props/TieTypes.lean (class translator);
   * `math.isnan(x)`; a wire float is `V.float width bits` (only `isnan` and `> 0` are defined on it).
-Ignored (documented, trusted): decorators (`@timeout`, `@cache`), docstrings, type annotations,
+Round 8, third leg (schedules):
+  * comprehensions with several `for` clauses (`Py.listComp` per clause, the inner lists concatenated by `Py.flatten`);
+    `bytearray(<generator expression>)`: every item goes through `Py.byteItem` as it is produced (the constructor consumes
+    the generator item by item); `CONST.index(x)` on a folded tuple; `int(x)`;
+  * `xs.append(e)` as a statement, on a local that is assigned exactly once, from a list display / comprehension of this
+    function, and that is not read (handed out, aliased) before the last statement that appends to it has finished;
+  * `try: S  except E: H` where S falls through and every path of H returns / raises: the outcome is a `Sum`;
+  * decorators: `@timeout(...)` ignored; a caching decorator (`@cache`, `@lru_cache`) accepted only when the declared
+    return type is immutable (a cached function returning a list hands ONE shared object to all callers: rejected);
+    every other decorator is rejected.
+Ignored (documented, trusted): `@timeout`, docstrings, type annotations,
 `_LOGGER.*(...)` statements, the arguments (messages) of raised exceptions, `from e` chaining.
 """
 import ast
@@ -94,7 +104,19 @@ TARGETS = [
     ("pyplumio/structures/boiler_power.py", "BoilerPowerStructure.decode"),
     ("pyplumio/structures/fuel_consumption.py", "FuelConsumptionStructure.decode"),
     ("pyplumio/structures/output_flags.py", "OutputFlagsStructure.decode"),
+    # round 8 (W1c): schedules
+    ("pyplumio/structures/schedules.py", "SchedulesStructure._unpack_schedule"),
+    ("pyplumio/structures/schedules.py", "SchedulesStructure.decode"),
+    ("pyplumio/structures/schedules.py", "SchedulesStructure.encode"),
 ]
+
+# decorators.  `@timeout(...)` (asyncio deadline around a coroutine) is ignored: trusted, documented.  A CACHING decorator
+# changes nothing observable only when the function is pure AND its result is immutable: two calls with equal arguments
+# then return ONE object, and a caller that mutates it changes what every later caller gets — aliasing, outside a pure
+# translation.  So a caching decorator is accepted only on a function whose declared return type is immutable; any
+# other decorator is rejected (never silently ignored).
+CACHING_DECORATORS = {"cache", "lru_cache", "cached_property"}
+IMMUTABLE_RETURNS = {"bool", "int", "str", "bytes", "float", "None"}
 
 EXCEPTIONS = {
     "KeyError": "KeyError", "ValueError": "ValueError", "IndexError": "IndexError", "TypeError": "TypeError",
@@ -285,7 +307,16 @@ def assigned_names(stmts):
                 add(n.target)
             elif isinstance(n, ast.For):
                 pass
+            elif is_append_stmt(n):
+                add(n.value.func.value)
     return out
+
+
+def is_append_stmt(n):
+    """the statement `<name>.append(<one argument>)`"""
+    return (isinstance(n, ast.Expr) and isinstance(n.value, ast.Call) and isinstance(n.value.func, ast.Attribute)
+            and n.value.func.attr == "append" and isinstance(n.value.func.value, ast.Name) and len(n.value.args) == 1
+            and not n.value.keywords)
 
 
 class Translator:
@@ -528,6 +559,12 @@ class Translator:
         if a.kwarg or a.kwonlyargs or a.posonlyargs:
             raise Unsupported(f"{rel}:{node.lineno} {qual}: **kwargs / keyword-only parameters")
         params = [p.arg for p in a.args]
+        for d in node.decorator_list:
+            try:
+                self.check_decorator(rel, qual, node, d)
+            except Unsupported:
+                info["failed"] = True
+                raise
         info["has_self"] = bool(cls is not None and params and params[0] == "self")
         # a method that reads / assigns attributes of `self` (directly or through another method of the class) takes the
         # instance as a first argument `v_self` and returns (result, instance after the call)
@@ -568,6 +605,20 @@ class Translator:
                 f"def {lname}{fuel}{sig} : {mon} := do"]
         self.order.append((key, head + indent(body)))
         return info
+
+    def check_decorator(self, rel, qual, node, d):
+        f = d.func if isinstance(d, ast.Call) else d
+        base = f.attr if isinstance(f, ast.Attribute) else (f.id if isinstance(f, ast.Name) else None)
+        where = f"{rel}:{node.lineno} {qual}"
+        if base == "timeout":
+            return
+        if base in CACHING_DECORATORS:
+            ann = ast.unparse(node.returns) if node.returns is not None else None
+            if ann in IMMUTABLE_RETURNS:
+                return
+            raise Unsupported(f"{where}: caching decorator @{ast.unparse(d)} on a function whose declared result ({ann}) is not an "
+                              "immutable scalar: all callers with equal arguments share ONE object (aliasing is outside a pure translation)")
+        raise Unsupported(f"{where}: decorator @{ast.unparse(d)} (only @timeout and caches of immutable results are understood)")
 
     def uses_self_state(self, cls, node, seen):
         """does the method read or assign an attribute of `self` (other than calling the stream reader / a method of
@@ -919,6 +970,38 @@ class FnTranslator:
         head = "(fun " + " ".join("v_" + x for x in names) + " => (do"
         return [], "\n".join([head] + indent(lines + [f"pure {atom} : PyM V))"], 4))
 
+    def comp_nest(self, n, gens, elt_fn):
+        """the list of the elements of a comprehension with the `for` clauses gens (evaluated eagerly, in Python's order:
+        the iterable of an inner clause is evaluated once per element of the outer one): -> (lines, atom)"""
+        g = gens[0]
+        if g.is_async or not isinstance(g.target, ast.Name):
+            self.fail(n, "comprehension target")
+        lines, it = self.expr(g.iter)
+
+        def body():
+            self.bound.add(g.target.id)
+            out, conds = [], []
+            for c in g.ifs:
+                l, a = self.expr(c)
+                out += l
+                t = self.fresh()
+                out.append(f"let {t} ← {self.P('truthy')} {a}")
+                conds.append(t)
+            l, a = elt_fn() if len(gens) == 1 else self.comp_nest(n, gens[1:], elt_fn)
+            if conds:
+                out += [f"if {' && '.join(conds)} then do"] + indent(l + [f"pure (some {a})"]) + ["else pure Option.none"]
+            else:
+                out += l + [f"pure (some {a})"]
+            return out
+        blk = self.sub(body)
+        t = self.fresh()
+        lines += [f"let {t} ← {self.P('listComp')} {it} (fun v_{g.target.id} => (do"] + indent(blk, 4) + ["    : PyM (Option V)))"]
+        if len(gens) > 1:
+            t2 = self.fresh()
+            lines.append(f"let {t2} ← {self.P('flatten')} {t}")
+            t = t2
+        return lines, t
+
     def comprehension(self, n, elt):
         if len(n.generators) != 1:
             self.fail(n, "comprehension with several `for` clauses")
@@ -929,6 +1012,8 @@ class FnTranslator:
         return lines, it, g
 
     def e_ListComp(self, n):
+        if len(n.generators) > 1:
+            return self.comp_nest(n, n.generators, lambda: self.expr(n.elt))
         lines, it, g = self.comprehension(n, n.elt)
 
         def body():
@@ -1046,6 +1131,12 @@ class FnTranslator:
                     if isinstance(v, StructFmt) and f.attr == "unpack_from" and len(n.args) == 1 and not n.keywords:
                         lines, a = self.expr(n.args[0])
                         return lines, self.bind(lines, f"{self.P('struct_unpack_from')} {lean_str(v.fmt)} {a}")
+                    if isinstance(v, tuple) and all(isinstance(x, (str, int)) for x in v) and f.attr == "index" \
+                            and len(n.args) == 1 and not n.keywords:
+                        # CONST.index(x) on a module-level tuple of scalars
+                        c = self.tr.const_atom(r[1], f.value.id, v, f"{r[1].rel}: {f.value.id}")
+                        lines, a = self.expr(n.args[0])
+                        return lines, self.bind(lines, f"{self.P('seq_index')} {c} {a}")
                     self.fail(n, f"method {f.attr} of module-level value {f.value.id}")
                 if r and r[0] == "ext":
                     if r[1] == "math" and r[2] is None and f.attr == "isnan" and len(n.args) == 1 and not n.keywords:
@@ -1087,6 +1178,15 @@ class FnTranslator:
         args = n.args
         if name in ("any", "all") and len(args) == 1 and isinstance(args[0], ast.GeneratorExp):
             return self.gen_call(n, "anyGen" if name == "any" else "allGen")
+        if name in ("bytearray", "bytes") and len(args) == 1 and isinstance(args[0], ast.GeneratorExp):
+            # the constructor consumes the generator item by item: each item is checked (Py.byteItem) as it is produced
+            ge = args[0]
+
+            def item():
+                l, a = self.expr(ge.elt)
+                return l, self.bind(l, f"{self.P('byteItem')} {a}")
+            lines, a = self.comp_nest(ge, ge.generators, item)
+            return lines, self.bind(lines, f"{self.P('bytearray')} {a}")
         if any(isinstance(a, (ast.GeneratorExp, ast.Starred)) for a in args):
             self.fail(n, f"{name}(...) of a generator expression / starred argument")
         if name in ("list", "dict") and len(args) == 1:
@@ -1097,7 +1197,7 @@ class FnTranslator:
             lines, a = self.expr(args[0])
             return lines, self.bind(lines, f"{self.P(name + '_')} {a}")
         lines, atoms = self.seq(args)
-        one = {"bool": "bool", "len": "len", "reversed": "reversed", "bytearray": "bytearray", "bytes": "bytearray"}
+        one = {"bool": "bool", "len": "len", "reversed": "reversed", "bytearray": "bytearray", "bytes": "bytearray", "int": "int_"}
         if name in one and len(atoms) == 1:
             return lines, self.bind(lines, f"{self.P(one[name])} {atoms[0]}")
         if name in ("bytearray", "bytes") and not atoms:
@@ -1238,6 +1338,7 @@ class FnTranslator:
         wrap = (lambda atom: f"({atom}, v_self)") if self.stateful else (lambda atom: atom)
         self.wrap = wrap
         self.ret = lambda atom: [f"pure {wrap(atom)}"]
+        self.top_ret = self.ret
         self.cont = None
         self.brk = None
         if self.generator:
@@ -1296,6 +1397,12 @@ class FnTranslator:
                 out.append(comment + "      (ignored: logging)")
                 return False
             out.append(comment)
+            if is_append_stmt(st):
+                x = v.func.value.id
+                self.check_own_list(st, x)
+                lines, a = self.expr(v.args[0])
+                out += lines + [f"let v_{x} ← {self.P('list_append')} v_{x} {a}"]
+                return False
             if isinstance(v, ast.Yield):
                 lines, a = self.expr(v.value)
                 out += lines + [f"let v__yield ← {self.P('yield_')} v__yield {a}"]
@@ -1387,6 +1494,35 @@ class FnTranslator:
             self.bound |= set(names)
             return
         self.fail(st, "assignment target (subscript / attribute assignment mutates an object)")
+
+    def check_own_list(self, st, x):
+        """`x.append(e)` is a value operation (`x = x + [e]`) only when nobody else can see the list: x is a local assigned
+        exactly once, from a list display / comprehension of this function, and every read of x other than as the
+        receiver of an append statement comes after the (outermost) statement holding the last append has ended"""
+        if self.nested:
+            self.fail(st, f"{x}.append(...) inside a nested scope")
+        if x in self.info["params"] or x not in self.bound:
+            self.fail(st, f"{x}.append(...): {x} is a parameter / not a local list of this function (the caller sees the mutation)")
+        stores, appends, recv = [], [], set()
+        for n in ast.walk(self.node):
+            if isinstance(n, (ast.Assign, ast.AnnAssign)) and getattr(n, "value", None) is not None:
+                for t in (n.targets if isinstance(n, ast.Assign) else [n.target]):
+                    if any(isinstance(m, ast.Name) and m.id == x for m in ast.walk(t)):
+                        stores.append(n)
+            elif isinstance(n, (ast.AugAssign, ast.NamedExpr, ast.For, ast.comprehension)):
+                if any(isinstance(m, ast.Name) and m.id == x and isinstance(m.ctx, ast.Store) for m in ast.walk(n.target)):
+                    self.fail(st, f"{x}.append(...): {x} is also assigned by an augmented assignment / loop / assignment expression")
+            if is_append_stmt(n) and n.value.func.value.id == x:
+                appends.append(n)
+                recv.add(id(n.value.func.value))
+        if len(stores) != 1 or not isinstance(stores[0].value, (ast.List, ast.ListComp)) \
+                or not (isinstance(stores[0], ast.AnnAssign) or isinstance(stores[0].targets[0], ast.Name)):
+            self.fail(st, f"{x}.append(...): {x} is not assigned exactly once from a list display / comprehension (the list may be shared)")
+        last = max(a.lineno for a in appends)
+        top = next(t for t in self.node.body if t.lineno <= last <= t.end_lineno)
+        for n in ast.walk(self.node):
+            if isinstance(n, ast.Name) and n.id == x and isinstance(n.ctx, ast.Load) and id(n) not in recv and n.lineno <= top.end_lineno:
+                self.fail(st, f"{x}.append(...): {x} is read (line {n.lineno}) before the last append to it has finished (aliasing)")
 
     def is_self_attr(self, t):
         if isinstance(t, ast.Attribute) and isinstance(t.value, ast.Name) and t.value.id == "self" and self.stateful:
@@ -1585,6 +1721,24 @@ class FnTranslator:
                     # allowed only as `raise X from e` or inside exception messages
                     pass
         prim = "tryExceptIO" if self.is_async else "tryExcept"
+        if not has_transfer(st.body) and has_transfer(h.body) and terminates(h.body) and not self.is_async \
+                and self.loop is None and self.ret is self.top_ret:
+            # the body falls through (assigning `names`), every path of the handler returns / raises: the outcome is a Sum
+            names = self.assigned(st.body)
+            pat = self.tuple_pat(names)
+            ty = "Unit" if not names else " × ".join("V" for _ in names)
+            rty = "V × V" if self.stateful else "V"
+            saved = set(self.bound)
+            body = self.block(list(st.body), lambda: [f"pure (Sum.inl {pat})"])
+            self.bound = set(saved)
+            self.ret = lambda atom: [f"pure (Sum.inr {self.wrap(atom)})"]
+            handler = ["-- " + self.mod.lines[h.lineno - 1].strip()] + self.block(list(h.body), lambda: ["throw PyErr.unsupported"])
+            self.ret = self.top_ret
+            self.bound = saved | set(names)
+            t = self.fresh()
+            out += [f"let {t} ← {self.P(prim)} (do"] + indent(body, 4) + [f"    : PyM (Sum ({ty}) ({rty}))) {cs} (do"] + indent(handler, 4) + ["  )"]
+            out += [f"match {t} with", "| .inr r => pure r", f"| .inl {pat} => do"] + indent(self.block(list(rest), k))
+            return True
         if has_transfer(st.body) or has_transfer(h.body):
             if not terminates(st.body):
                 self.fail(st, "try body that both returns and falls through")
